@@ -55,6 +55,9 @@ func snapshot(c *canvas.Canvas) []recEvent {
 	out := make([]recEvent, len(r.Events))
 	for i, e := range r.Events {
 		out[i] = recEvent{Kind: e.Kind, M: e.M, Data: e.Data, Style: e.Style}
+		// the style holds the dash array by reference: without a copy a renderer that scales it in place would change the
+		// earlier snapshot as well and the comparison could never see it
+		out[i].Style.Dashes = append([]float64(nil), e.Style.Dashes...)
 		if lg, ok := e.Style.Fill.Gradient.(*canvas.LinearGradient); ok {
 			out[i].Stops = append([]canvas.Stop(nil), lg.Stops...)
 			out[i].Ends = [2]canvas.Point{lg.Start, lg.End}
